@@ -61,8 +61,9 @@ func flight5ClientAuthPackets(
 			dtlserrors.ErrInvalidPrivateKey
 	}
 
+	// of those the server accepts, only schemes this endpoint is configured to use
 	signatureScheme, err := signaturehash.SelectSignatureScheme13(
-		certificateRequestSignatureSchemes(certificateRequest),
+		dtlsflight.CommonSignatureSchemes(certificateRequestSignatureSchemes(certificateRequest), flightCtx.cfg.LocalSignatureSchemes),
 		signer,
 	)
 	if err != nil {
